@@ -246,6 +246,51 @@ def content_type_header(media: int, explicit: int, body_kind: int) -> bool:
     return (data.decode("utf8") if isinstance(data, bytes) else data) == "plain"
 
 
+ENCODED_PATH_VALUES = ["u1", "%2E", "%2E%2E", "a%2Fb", "a%20b", "%25", "a%3Fb", "x%23y", "%41", "%7Bid%7D", "a%2E%2E", "-_~"]
+
+
+def path_value_on_wire(k: int, trailing_slash: bool) -> bool:
+    """
+    pre: 0 <= k < len(ENCODED_PATH_VALUES)
+    post: _
+    """
+    # the generator hands over path values already percent-encoded (quote_all: '/', '.', '%', '?', '#' ... never appear raw); the URL that
+    # goes to the HTTP client is the base URL joined with the template in which the variable is replaced by exactly that text -
+    # nothing is decoded on the way (a decoded %2E / %2F would change the path the API sees)
+    value = pick(ENCODED_PATH_VALUES, k)
+    case = mk_case(OP, "c0", path_parameters={"id": value}, body={"k": 1}, media_type="application/json")
+    base = "http://h.io/api/" if trailing_slash else "http://h.io/api"
+    kwargs = SCHEMA.transport.serialize_case(case, base_url=base)
+    return kwargs["url"] == "http://h.io/api/users/" + value and case.path_parameters == {"id": value}
+
+
+QUERY_WIRE_VALUES = [{}, 0, 0.0, False, None, 5, "x", "", [], [0], [""], "0"]
+
+
+def query_values_on_wire(k1: int, k2: int, k3: int) -> bool:
+    """
+    pre: k1 == param(0) % len(QUERY_WIRE_VALUES) and all(0 <= k < len(QUERY_WIRE_VALUES) for k in (k2, k3))
+    post: _
+    """
+    # an empty object is sent as an empty value (`filter=`) so that the parameter is present; no other value is touched by that
+    # (0, false, '' and [] next to it stay what was generated), and the case itself is not modified
+    values = [pick(QUERY_WIRE_VALUES, k) for k in (k1, k2, k3)]
+    query = {"a": values[0], "b": values[1], "c": values[2]}
+    snapshot = dict(query)
+    case = mk_case(OP, "c0", path_parameters={"id": "u1"}, query=query)
+    params = SCHEMA.transport.serialize_case(case, base_url="http://h.io/api")["params"]
+    if case.query != snapshot or set(params) != {"a", "b", "c"}:
+        return False
+    for name, value in snapshot.items():
+        got = params[name]
+        if isinstance(value, dict) and not value:
+            if got != "":
+                return False
+        elif got != value or type(got) is not type(value):
+            return False
+    return True
+
+
 def base_path_follows_base_url(first: int, second: int, read_before: bool) -> bool:
     """
     pre: 0 <= first <= 2 and 0 <= second <= 2
@@ -284,6 +329,12 @@ OBLIGATIONS = [
     Ob(fn="content_type_header", clause="Content-Type equals the case's media type unless set explicitly (any letter case); only standard client headers, configured headers and the case id are added; JSON and text bodies round-trip; the URL is base URL + path with the variable replaced",
        timeout=300, functions=["schemathesis.transport.requests.RequestsTransport.serialize_case", "schemathesis.transport.prepare.prepare_headers", "schemathesis.transport.prepare.prepare_url",
                                "schemathesis.transport.serialization.serialize_json"], symbolic="media type (2), explicit Content-Type spelling (none / 3 spellings), body kind (3)", bounds="one operation; concrete URL text"),
+    Ob(fn="path_value_on_wire", clause="the URL is the base URL joined with the path template in which the variable is replaced by the (already percent-encoded) value, nothing decoded on the way",
+       timeout=200, functions=["schemathesis.transport.prepare.prepare_url", "schemathesis.transport.prepare.prepare_path", "schemathesis.transport.requests.RequestsTransport.serialize_case"],
+       symbolic="which of 12 percent-encoded path values (encoded dot, dot-dot, slash, space, percent, ?, #, letter, braces, unreserved marks); base URL with or without trailing slash",
+       bounds="12 values x 2 base URL spellings", stubs=["urllib.parse.quote/unquote/urljoin on concrete text"], outside=["requests' own URL preparation after this point"]),
+    Ob(fn="query_values_on_wire", clause="the query handed to the HTTP client is the generated one: only an empty object is replaced (by an empty value, to keep the parameter present); 0, false, '' and [] are untouched and the case is not modified",
+       timeout=300, params=range(12), functions=["schemathesis.transport.requests.RequestsTransport.serialize_case"], symbolic="three query parameters, each one of 12 values ({}, 0, 0.0, false, null, 5, text, '', [], [0], [''], '0')", bounds="3 parameters x 12 values"),
     Ob(fn="base_path_follows_base_url", clause="the base path joined to the path template follows the configured base URL, also when it is re-configured after first use",
        timeout=300, functions=["schemathesis.schemas.BaseSchema.base_path", "schemathesis.schemas.BaseSchema.get_full_path", "schemathesis.schemas.APIOperation.full_path"],
        symbolic="first and second base URL (3 each), whether the base path was read in between", bounds="2 configurations in sequence"),
